@@ -398,6 +398,8 @@ CLASSIC = ['x"onerror="alert(1)', '"><script>alert(1)</script>', "' onmouseover=
            '</code></pre><b>', 'http://a@b/"x', 'x" y="z', '{inner}', '&#34;&#60;', '\\"\\<', 'a"b', 'a<b', 'a>b', '<', '>', '"',
            # text decoded with errors='surrogateescape' carries lone surrogates: the URL quoting cannot encode them (outside C01's domain;
            # whatever comes out must still be well-formed)
+           # authorities that URL-splitting helpers refuse (unbalanced / non-IP brackets, odd ports)
+           'http://[host]:8080/', '//[cdn]/l.png', 'http://[', 'http://[::1', 'http://[::1]:x/', 'http://a:99999999/', 'http://[v1.x]/', 'HTTP://[::1]:80/p?q#f',
            'caf\udce9"onmouseover="alert(1)', '\udc80<b>', '\ud800"']
 TEMPLATES = [
     '[t]({p})', '[t](<{p}>)', '[t](u "{p}")', '[*e* **s** `c` t](u "{p}")', '[*e* t][r]\n\n[r]: u \'{p}\'', '![*e* t](u "{p}")', "[t](u '{p}')", '[t](u ({p}))', '[{p}](u)', '![{p}](u)', '![a]({p})', '![a](<{p}>)',
